@@ -1110,3 +1110,1014 @@ Qed.
 Print Assumptions C01_refuted_S11.
 Print Assumptions C01_refuted_S18.
 Print Assumptions C01_refuted_S18_pending.
+
+(* ================================================================================================
+   6. Convergence invariant (outside the known classes)
+   ================================================================================================ *)
+
+(* what client c will think of u once it has handled everything queued on (0,c) *)
+Definition cm (s : astate) (c : peer) (u : uuid) : bool :=
+  after_msgs u (bool_decide (u ∈ get_ents s c)) (get_link s 0 c).
+
+Lemma cm_same s s' c u :
+  get_ents s' c = get_ents s c -> get_link s' 0 c = get_link s 0 c -> cm s' c u = cm s c u.
+Proof. unfold cm. by intros -> ->. Qed.
+
+Lemma cm_app s s' c u q :
+  get_ents s' c = get_ents s c -> get_link s' 0 c = get_link s 0 c ++ q ->
+  cm s' c u = after_msgs u (cm s c u) q.
+Proof. unfold cm. intros -> ->. apply after_msgs_app. Qed.
+
+Lemma cm_snoc s s' c u m :
+  get_ents s' c = get_ents s c -> get_link s' 0 c = get_link s 0 c ++ [m] ->
+  cm s' c u = after_msg u (cm s c u) m.
+Proof. intros He Hl. by rewrite (cm_app _ _ _ _ _ He Hl). Qed.
+
+Lemma cl_apply_member u m l :
+  NoDup l -> bool_decide (u ∈ cl_apply m l) = after_msg u (bool_decide (u ∈ l)) m.
+Proof.
+  intros Hnd. destruct m as [v|v| |]; simpl; try done.
+  - case_decide as Hvu.
+    + subst v. apply bool_decide_eq_true_2. destruct (decide (u ∈ l)) as [Hin|Hin].
+      * by rewrite (bool_decide_eq_true_2 _ Hin).
+      * rewrite (bool_decide_eq_false_2 _ Hin). set_solver.
+    + destruct (decide (v ∈ l)) as [Hin|Hin].
+      * by rewrite (bool_decide_eq_true_2 _ Hin).
+      * rewrite (bool_decide_eq_false_2 _ Hin). apply bool_decide_ext. set_solver.
+  - case_decide as Hvu.
+    + subst v. apply bool_decide_eq_false_2. by apply remove1_not_in.
+    + apply bool_decide_ext. split; [apply remove1_subseteq|].
+      intros Hin. apply remove1_other; [done|]. by intros ->.
+Qed.
+
+Lemma cm_pop s s' c u m q :
+  NoDup (get_ents s c) -> get_link s 0 c = m :: q -> get_link s' 0 c = q ->
+  get_ents s' c = cl_apply m (get_ents s c) -> cm s' c u = cm s c u.
+Proof.
+  intros Hnd Hhd Hl He. unfold cm. rewrite Hl, He, Hhd, after_msgs_cons.
+  by rewrite cl_apply_member.
+Qed.
+
+Lemma cm_no_mention s c u :
+  ~ mentions u (get_link s 0 c) -> cm s c u = bool_decide (u ∈ get_ents s c).
+Proof. intros Hm. unfold cm. apply after_msgs_no_mention; intros ?; apply Hm; [by left|by right]. Qed.
+
+Lemma pending_true s c : pending s c = true <-> exists q, get_link s c 0 = EReqInit :: q.
+Proof.
+  unfold pending. destruct (get_link s c 0) as [|m q].
+  - split; [done|]. intros [q' Hq']. discriminate Hq'.
+  - destruct m as [v|v| |]; (split; [try done|]); try (intros [q' Hq']; discriminate Hq').
+    + intros _. by eexists.
+    + done.
+Qed.
+
+(* after popping the head of (c,0), c is no longer pending *)
+Lemma pending_after_pop s s' c m q :
+  sinv s -> get_link s c 0 = m :: q -> get_link s' c 0 = q -> pending s' c = false.
+Proof.
+  intros Hinv Hhd Hl. pose proof (s_req _ Hinv c) as Hr. rewrite Hhd in Hr. simpl in Hr.
+  destruct (pending s' c) eqn:Hp; [|done]. destruct (proj1 (pending_true _ _) Hp) as [q' Hq'].
+  subst q. rewrite Hq' in Hr. exfalso. apply Hr. apply elem_of_list_here.
+Qed.
+
+Lemma pending_snoc s s' c x :
+  x <> EReqInit -> get_link s' c 0 = get_link s c 0 ++ [x] -> pending s' c = true -> pending s c = true.
+Proof.
+  intros Hx Hl. rewrite !pending_true. intros [q Hq]. rewrite Hl in Hq.
+  destruct (get_link s c 0) as [|m q0]; simpl in Hq; [by injection Hq|].
+  injection Hq as -> ?. by eexists.
+Qed.
+
+Record cinv (s : astate) : Prop := {
+  (* a synced client will hold everything the host holds, unless its own delete is on its way *)
+  c_A : forall c u, c ∈ conn s -> c ∈ synced s -> u ∈ get_ents s 0 ->
+        cm s c u = true \/ EDelete u ∈ get_link s c 0;
+  (* a client's own delete in flight: it will not hold u, and u is not re-sent by its snapshot *)
+  c_B1 : forall c u, c ∈ conn s -> EDelete u ∈ get_link s c 0 ->
+         cm s c u = false /\ (pending s c = true -> u ∉ get_ents s 0);
+  (* whatever a client will hold, the host holds or is about to learn from that client *)
+  c_B2 : forall c u, c ∈ conn s -> cm s c u = true ->
+         u ∈ get_ents s 0 \/ ESpawn u ∈ get_link s c 0;
+}.
+
+Lemma cinv_init : cinv init.
+Proof. constructor; simpl; intros c u Hc; set_solver. Qed.
+
+Lemma conn_ne0 s c : sinv s -> c ∈ conn s -> c <> 0.
+Proof. intros Hinv Hc ->. by apply (s_host _ Hinv). Qed.
+
+Lemma cinv_step_spawn s s' p u :
+  sinv s -> cinv s -> step s (EvSpawn p u) = Some s' -> cinv s'.
+Proof.
+  intros Hinv Hcinv Hstep. pose proof (s_host _ Hinv) as H0.
+  assert (A : astep s s' (EvSpawn p u)) by (apply step_astep; [apply Hinv|done]).
+  inversion A as [p0 u0 Hon Hfresh HE HL Hc Hs Hu| | | | | | | |]; subst p0 u0. clear A.
+  assert (Hnm : forall a b, ~ mentions u (get_link s a b)).
+  { intros a b Hm. apply Hfresh. eapply s_used_l; eauto. }
+  assert (Hne : forall p', u ∉ get_ents s p').
+  { intros p' Hm. apply Hfresh. eapply s_used_e; eauto. }
+  destruct (decide (p = 0)) as [->|Hp].
+  - (* the host spawns u *)
+    assert (HH : get_ents s' 0 = u :: get_ents s 0).
+    { rewrite HE. by rewrite decide_True. }
+    assert (Hcm : forall c' w, c' ∈ conn s -> cm s' c' w = after_msg w (cm s c' w) (ESpawn u)).
+    { intros c' w Hc'. pose proof (conn_ne0 _ _ Hinv Hc') as Hne0. apply cm_snoc.
+      - rewrite HE. by rewrite decide_False.
+      - rewrite HL. rewrite decide_True by done. by rewrite decide_True. }
+    assert (HU : forall c', c' <> 0 -> get_link s' c' 0 = get_link s c' 0).
+    { intros c' Hc'. rewrite HL. rewrite decide_True by done. rewrite decide_False; [done|]. tauto. }
+    constructor.
+    + intros c' w Hc' Hs' Hin. rewrite Hc in Hc'. rewrite Hs in Hs'.
+      pose proof (conn_ne0 _ _ Hinv Hc') as Hne0. rewrite Hcm, HU by done. simpl.
+      destruct (decide (u = w)) as [->|Huw]; [by left|].
+      apply (c_A _ Hcinv); try done. rewrite HH in Hin. set_solver.
+    + intros c' w Hc' Hde. rewrite Hc in Hc'.
+      pose proof (conn_ne0 _ _ Hinv Hc') as Hne0. rewrite HU in Hde by done.
+      destruct (c_B1 _ Hcinv _ _ Hc' Hde) as [Hf Hpd].
+      assert (Huw : u <> w). { intros ->. apply (Hnm c' 0). by right. }
+      split.
+      * rewrite Hcm by done. simpl. by rewrite decide_False.
+      * unfold pending. rewrite HU by done. intros Hp'. rewrite HH. specialize (Hpd Hp'). set_solver.
+    + intros c' w Hc' Ht. rewrite Hc in Hc'.
+      pose proof (conn_ne0 _ _ Hinv Hc') as Hne0. rewrite Hcm in Ht by done. simpl in Ht.
+      rewrite HH, HU by done.
+      destruct (decide (u = w)) as [->|Huw]; [left; set_solver|].
+      destruct (c_B2 _ Hcinv _ _ Hc' Ht); [left; set_solver|by right].
+  - (* client p spawns u *)
+    assert (HH : get_ents s' 0 = get_ents s 0).
+    { rewrite HE. by rewrite decide_False. }
+    assert (HD : forall c', get_link s' 0 c' = get_link s 0 c').
+    { intros c'. rewrite HL. rewrite decide_False by done. rewrite decide_False; [done|].
+      intros [= ->]. done. }
+    assert (HU : forall c', get_link s' c' 0 =
+              if decide (c' = p) then get_link s p 0 ++ [ESpawn u] else get_link s c' 0).
+    { intros c'. rewrite HL. rewrite decide_False by done.
+      repeat case_decide; simplify_eq; done. }
+    assert (Hcm : forall c' w,
+              (c' = p /\ w = u /\ cm s' c' w = true) \/ (w <> u /\ cm s' c' w = cm s c' w) \/
+              (c' <> p /\ cm s' c' w = cm s c' w)).
+    { intros c' w. destruct (decide (c' = p)) as [->|Hcp].
+      - destruct (decide (w = u)) as [->|Hwu].
+        + left. split; [done|]. split; [done|]. rewrite cm_no_mention by (rewrite HD; apply Hnm).
+          apply bool_decide_eq_true_2. rewrite HE. rewrite decide_True by done. set_solver.
+        + right. left. split; [done|]. unfold cm. rewrite HD, HE. rewrite decide_True by done.
+          f_equal. apply bool_decide_ext. set_solver.
+      - right. right. split; [done|]. apply cm_same; [|done]. rewrite HE. by rewrite decide_False. }
+    constructor.
+    + intros c' w Hc' Hs' Hin. rewrite Hc in Hc'. rewrite Hs in Hs'. rewrite HH in Hin.
+      rewrite HU. destruct (c_A _ Hcinv _ _ Hc' Hs' Hin) as [Ht|Hde].
+      * left. destruct (Hcm c' w) as [(_ & _ & ?)|[(_ & ?)|(_ & ?)]]; congruence.
+      * right. case_decide; subst; set_solver.
+    + intros c' w Hc' Hde. rewrite Hc in Hc'.
+      assert (Hde' : EDelete w ∈ get_link s c' 0).
+      { rewrite HU in Hde. case_decide; subst; [|done]. apply elem_of_snoc in Hde as [?|[=]]. done. }
+      destruct (c_B1 _ Hcinv _ _ Hc' Hde') as [Hf Hpd].
+      assert (Huw : w <> u). { intros ->. apply (Hnm c' 0). by right. }
+      split.
+      * destruct (Hcm c' w) as [(_ & ? & _)|[(_ & ?)|(_ & ?)]]; congruence.
+      * intros Hp'. rewrite HH. apply Hpd. destruct (decide (c' = p)) as [->|Hcp].
+        -- eapply (pending_snoc s s' p (ESpawn u)); [done| |done]. rewrite HU. by rewrite decide_True.
+        -- unfold pending in *. rewrite HU in Hp'. by rewrite decide_False in Hp'.
+    + intros c' w Hc' Ht. rewrite Hc in Hc'. rewrite HH, HU.
+      destruct (Hcm c' w) as [(-> & -> & _)|[(_ & Heq)|(_ & Heq)]].
+      * right. rewrite decide_True by done. set_solver.
+      * rewrite Heq in Ht. destruct (c_B2 _ Hcinv _ _ Hc' Ht); [by left|right].
+        case_decide; subst; set_solver.
+      * rewrite Heq in Ht. destruct (c_B2 _ Hcinv _ _ Hc' Ht); [by left|right].
+        case_decide; subst; set_solver.
+Qed.
+
+Lemma remove1_elem u l w : NoDup l -> w ∈ remove1 u l <-> w ∈ l /\ w <> u.
+Proof.
+  intros Hnd. split.
+  - intros Hin. split; [by eapply remove1_subseteq|]. intros ->. by eapply remove1_not_in.
+  - intros [? ?]. by apply remove1_other.
+Qed.
+
+Lemma cinv_step_despawn s s' p u :
+  sinv s -> cinv s -> bad_S18 s (EvDespawn p u) = false ->
+  step s (EvDespawn p u) = Some s' -> cinv s'.
+Proof.
+  intros Hinv Hcinv Hbad Hstep. pose proof (s_host _ Hinv) as H0.
+  assert (A : astep s s' (EvDespawn p u)) by (apply step_astep; [apply Hinv|done]).
+  inversion A as [|p0 u0 Hon Hin HE HL (Hc & Hs & Hu)| | | | | | |]; subst p0 u0. clear A.
+  pose proof (s_nd_ents _ Hinv) as Hnd.
+  destruct (decide (p = 0)) as [->|Hp].
+  - (* the host despawns u *)
+    assert (HH : get_ents s' 0 = remove1 u (get_ents s 0)).
+    { rewrite HE. by rewrite decide_True. }
+    assert (Hcm : forall c' w, c' ∈ conn s -> cm s' c' w = after_msg w (cm s c' w) (EDelete u)).
+    { intros c' w Hc'. pose proof (conn_ne0 _ _ Hinv Hc') as Hne0. apply cm_snoc.
+      - rewrite HE. by rewrite decide_False.
+      - rewrite HL. rewrite decide_True by done. by rewrite decide_True. }
+    assert (HU : forall c', c' <> 0 -> get_link s' c' 0 = get_link s c' 0).
+    { intros c' Hc'. rewrite HL. rewrite decide_True by done. rewrite decide_False; [done|]. tauto. }
+    constructor.
+    + intros c' w Hc' Hs' Hw. rewrite Hc in Hc'. rewrite Hs in Hs'.
+      pose proof (conn_ne0 _ _ Hinv Hc') as Hne0. rewrite Hcm, HU by done. simpl.
+      rewrite HH in Hw. apply remove1_elem in Hw as [Hw Hwu]; [|done].
+      rewrite decide_False by done. by apply (c_A _ Hcinv).
+    + intros c' w Hc' Hde. rewrite Hc in Hc'.
+      pose proof (conn_ne0 _ _ Hinv Hc') as Hne0. rewrite HU in Hde by done.
+      destruct (c_B1 _ Hcinv _ _ Hc' Hde) as [Hf Hpd]. split.
+      * rewrite Hcm by done. simpl. rewrite Hf. by case_decide.
+      * unfold pending. rewrite HU by done. intros Hp'. rewrite HH. specialize (Hpd Hp').
+        intros ?%remove1_subseteq. done.
+    + intros c' w Hc' Ht. rewrite Hc in Hc'.
+      pose proof (conn_ne0 _ _ Hinv Hc') as Hne0. rewrite Hcm in Ht by done. simpl in Ht.
+      rewrite HH, HU by done. case_decide as Huw; [done|].
+      destruct (c_B2 _ Hcinv _ _ Hc' Ht); [left|by right]. apply remove1_other; [done|]. by intros ->.
+  - (* client p despawns u *)
+    simpl in Hbad. rewrite bool_decide_eq_true_2 in Hbad by done. simpl in Hbad.
+    apply orb_false_iff in Hbad as [Hbad1 Hbad2].
+    assert (HH : get_ents s' 0 = get_ents s 0).
+    { rewrite HE. by rewrite decide_False. }
+    assert (HD : forall c', get_link s' 0 c' = get_link s 0 c').
+    { intros c'. rewrite HL. rewrite decide_False by done. rewrite decide_False; [done|].
+      intros [= ->]. done. }
+    assert (HU : forall c', get_link s' c' 0 =
+              if decide (c' = p) then get_link s p 0 ++ [EDelete u] else get_link s c' 0).
+    { intros c'. rewrite HL. rewrite decide_False by done.
+      repeat case_decide; simplify_eq; done. }
+    assert (Hcm : forall c' w,
+              (c' = p /\ w = u /\ cm s' c' w = false) \/ cm s' c' w = cm s c' w).
+    { intros c' w. destruct (decide (c' = p)) as [->|Hcp].
+      - destruct (decide (w = u)) as [->|Hwu].
+        + left. split; [done|]. split; [done|]. unfold cm. rewrite HD, HE.
+          rewrite decide_True by done. rewrite bool_decide_eq_false_2; [done|].
+          by apply remove1_not_in.
+        + right. unfold cm. rewrite HD, HE. rewrite decide_True by done.
+          f_equal. apply bool_decide_ext. rewrite remove1_elem by done. tauto.
+      - right. apply cm_same; [|done]. rewrite HE. by rewrite decide_False. }
+    assert (Hpend : forall c', pending s' c' = true -> pending s c' = true).
+    { intros c' Hp'. destruct (decide (c' = p)) as [->|Hcp].
+      - eapply (pending_snoc s s' p (EDelete u)); [done| |done]. rewrite HU. by rewrite decide_True.
+      - unfold pending in *. rewrite HU in Hp'. by rewrite decide_False in Hp'. }
+    constructor.
+    + intros c' w Hc' Hs' Hw. rewrite Hc in Hc'. rewrite Hs in Hs'. rewrite HH in Hw.
+      rewrite HU. destruct (Hcm c' w) as [(-> & -> & _)|Heq].
+      * right. rewrite decide_True by done. apply elem_of_app. right. apply elem_of_list_here.
+      * rewrite Heq. destruct (c_A _ Hcinv _ _ Hc' Hs' Hw) as [Ht|Hde]; [by left|right].
+        destruct (decide (c' = p)) as [->|?]; [apply elem_of_app; by left|done].
+    + intros c' w Hc' Hde. rewrite Hc in Hc'. rewrite HH.
+      destruct (Hcm c' w) as [(-> & -> & Hf)|Heq].
+      * split; [done|]. intros Hp'%Hpend. rewrite Hp' in Hbad2. simpl in Hbad2.
+        by apply bool_decide_eq_false in Hbad2.
+      * assert (Hcase : (c' = p /\ w = u) \/ EDelete w ∈ get_link s c' 0).
+        { rewrite HU in Hde. destruct (decide (c' = p)) as [->|?]; [|by right].
+          apply elem_of_snoc in Hde as [?|[= ->]]; [by right|by left]. }
+        destruct Hcase as [[-> ->]|Hde'].
+        -- split.
+           ++ rewrite Heq. unfold cm.
+              destruct (decide (u ∈ get_ents s p)) as [_|Hn]; [|done].
+              (* cm s' = false by the first disjunct computation *)
+              unfold cm in Heq. rewrite HD, HE in Heq. rewrite decide_True in Heq by done.
+              rewrite (bool_decide_eq_false_2 (u ∈ remove1 u (get_ents s p))) in Heq
+                by (by apply remove1_not_in).
+              rewrite <- Heq. done.
+           ++ intros Hp'%Hpend. rewrite Hp' in Hbad2. simpl in Hbad2.
+              by apply bool_decide_eq_false in Hbad2.
+        -- destruct (c_B1 _ Hcinv _ _ Hc' Hde') as [Hf Hpd]. split; [by rewrite Heq|].
+           intros Hp'%Hpend. by apply Hpd.
+    + intros c' w Hc' Ht. rewrite Hc in Hc'. rewrite HH, HU.
+      destruct (Hcm c' w) as [(_ & _ & Hf)|Heq]; [congruence|].
+      rewrite Heq in Ht. destruct (c_B2 _ Hcinv _ _ Hc' Ht); [by left|right].
+      destruct (decide (c' = p)) as [->|?]; [apply elem_of_app; by left|done].
+Qed.
+
+Ltac dsimp := repeat match goal with
+  | H : context [decide (?x = ?x)] |- _ => rewrite (decide_True (P := x = x)) in H by done
+  | |- context [decide (?x = ?x)] => rewrite (decide_True (P := x = x)) by done
+  | Hn : ?x <> ?y, H : context [decide (?x = ?y)] |- _ => rewrite (decide_False (P := x = y)) in H by done
+  | Hn : ?x <> ?y |- context [decide (?x = ?y)] => rewrite (decide_False (P := x = y)) by done
+  end.
+
+Lemma after_msg_false_delete w u : after_msg w false (EDelete u) = false.
+Proof. simpl. by case_decide. Qed.
+
+Lemma cinv_step_deliver_host s s' c :
+  sinv s -> cinv s -> step s (EvDeliver c 0) = Some s' -> cinv s'.
+Proof.
+  intros Hinv Hcinv Hstep. pose proof (s_host _ Hinv) as H0.
+  pose proof (s_nd_ents _ Hinv) as Hnd.
+  assert (A : astep s s' (EvDeliver c 0)) by (apply step_astep; [apply Hinv|done]).
+  inversion A as [| |c1 u q Hc0 Hhd HE HL (Hc & Hs & Hu)
+                    |c1 u q Hc0 Hhd HE HL (Hc & Hs & Hu)
+                    |c1 q Hc0 Hhd HE HL Hc Hs Hu
+                    |c1 q Hc0 Hhd HE HL (Hc & Hs & Hu)
+                    |c1 m q Hc0 Hhd HE HL (Hc & Hs & Hu)| |]; subst; clear A; [| | | |done].
+  - (* host receives ESpawn u from c *)
+    assert (Hcc : c ∈ conn s) by (apply link_nonempty_conn; [done|done|by rewrite Hhd]).
+    assert (Hq : forall m, m ∈ q -> m ∈ get_link s c 0) by (rewrite Hhd; set_solver).
+    assert (Hsp : ESpawn u ∈ get_link s c 0) by (rewrite Hhd; set_solver).
+    destruct (s_pa _ Hinv _ _ Hsp) as (Q1 & Q2 & Q3 & Q4).
+    assert (HH : get_ents s' 0 = u :: get_ents s 0).
+    { rewrite HE. by rewrite decide_True. }
+    assert (HEc : forall c', c' <> 0 -> get_ents s' c' = get_ents s c').
+    { intros c' Hc'. rewrite HE. by rewrite decide_False. }
+    assert (HD : forall c', c' ∈ conn s -> get_link s' 0 c' =
+              if decide (c' = c) then get_link s 0 c' else get_link s 0 c' ++ [ESpawn u]).
+    { intros c' Hc'. rewrite HL. rewrite decide_False by (intros [= <- ?]; done).
+      destruct (decide (c' = c)) as [->|Hne]; dsimp.
+      - rewrite decide_False; [done|]. tauto.
+      - by rewrite ?decide_True. }
+    assert (HU : forall c', c' <> 0 -> get_link s' c' 0 =
+              if decide (c' = c) then q else get_link s c' 0).
+    { intros c' Hc'. rewrite HL. destruct (decide (c' = c)) as [->|Hne]; dsimp.
+      - by rewrite ?decide_True.
+      - rewrite decide_False by (intros [= ?]; done). rewrite decide_False; [done|]. tauto. }
+    assert (Hcm : forall c' w, c' ∈ conn s -> cm s' c' w =
+              if decide (c' = c) then cm s c' w else after_msg w (cm s c' w) (ESpawn u)).
+    { intros c' w Hc'. pose proof (conn_ne0 _ _ Hinv Hc') as Hne0.
+      destruct (decide (c' = c)) as [->|Hne]; dsimp.
+      - apply cm_same; [by apply HEc|]. rewrite HD by done. by rewrite decide_True.
+      - apply cm_snoc; [by apply HEc|]. rewrite HD by done. by rewrite decide_False. }
+    constructor.
+    + intros c' w Hc' Hs' Hw. rewrite Hc in Hc'. rewrite Hs in Hs'.
+      pose proof (conn_ne0 _ _ Hinv Hc') as Hne0. rewrite Hcm, HU by done. rewrite HH in Hw.
+      destruct (decide (c' = c)) as [->|Hne]; dsimp.
+      * destruct (decide (w = u)) as [->|Hwu].
+        -- rewrite cm_no_mention by apply Q2. destruct Q4 as [Q4|Q4].
+           ++ left. by apply bool_decide_eq_true_2.
+           ++ right. rewrite Hhd in Q4. apply elem_of_cons in Q4 as [[=]|Q4]. done.
+        -- assert (Hw' : w ∈ get_ents s 0) by (apply elem_of_cons in Hw as [->|Hw]; done).
+           destruct (c_A _ Hcinv _ _ Hc' Hs' Hw') as [?|Hde]; [by left|right].
+           rewrite Hhd in Hde. apply elem_of_cons in Hde as [[=]|Hde]. done.
+      * simpl. destruct (decide (u = w)) as [->|Hwu]; [by left|].
+        apply (c_A _ Hcinv); try done. apply elem_of_cons in Hw as [->|Hw]; done.
+    + intros c' w Hc' Hde. rewrite Hc in Hc'.
+      pose proof (conn_ne0 _ _ Hinv Hc') as Hne0. rewrite HU in Hde by done. rewrite Hcm by done.
+      destruct (decide (c' = c)) as [->|Hne]; dsimp.
+      * destruct (c_B1 _ Hcinv _ _ Hc' (Hq _ Hde)) as [Hf Hpd]. split; [done|].
+        rewrite (pending_after_pop s s' c _ _ Hinv Hhd); [done|]. rewrite HU by done.
+        by rewrite decide_True.
+      * destruct (c_B1 _ Hcinv _ _ Hc' Hde) as [Hf Hpd].
+        assert (Hwu : u <> w). { intros ->. destruct (Q3 c' Hne) as [_ Q3b]. apply Q3b. by right. }
+        split.
+        -- simpl. by rewrite decide_False.
+        -- unfold pending. rewrite HU by done. rewrite decide_False by done.
+           intros Hp'. specialize (Hpd Hp'). rewrite HH. intros [->|Hin]%elem_of_cons; done.
+    + intros c' w Hc' Ht. rewrite Hc in Hc'.
+      pose proof (conn_ne0 _ _ Hinv Hc') as Hne0. rewrite Hcm in Ht by done. rewrite HH, HU by done.
+      destruct (decide (c' = c)) as [->|Hne]; dsimp.
+      * destruct (c_B2 _ Hcinv _ _ Hc' Ht) as [?|Hsw]; [left; by apply elem_of_list_further|].
+        rewrite Hhd in Hsw. apply elem_of_cons in Hsw as [[= ->]|?]; [left; by apply elem_of_list_here|by right].
+      * simpl in Ht. destruct (decide (u = w)) as [->|Hwu]; [left; by apply elem_of_list_here|].
+        destruct (c_B2 _ Hcinv _ _ Hc' Ht); [left; by apply elem_of_list_further|by right].
+  - (* host receives EDelete u from c *)
+    assert (Hcc : c ∈ conn s) by (apply link_nonempty_conn; [done|done|by rewrite Hhd]).
+    assert (Hq : forall m, m ∈ q -> m ∈ get_link s c 0) by (rewrite Hhd; set_solver).
+    assert (Hdu : EDelete u ∈ get_link s c 0) by (rewrite Hhd; set_solver).
+    destruct (c_B1 _ Hcinv _ _ Hcc Hdu) as [Hcu _].
+    assert (HH : get_ents s' 0 = remove1 u (get_ents s 0)).
+    { rewrite HE. by rewrite decide_True. }
+    assert (HEc : forall c', c' <> 0 -> get_ents s' c' = get_ents s c').
+    { intros c' Hc'. rewrite HE. by rewrite decide_False. }
+    assert (HD : forall c', c' ∈ conn s -> get_link s' 0 c' =
+              if decide (c' = c) then get_link s 0 c' else get_link s 0 c' ++ [EDelete u]).
+    { intros c' Hc'. rewrite HL. rewrite decide_False by (intros [= <- ?]; done).
+      destruct (decide (c' = c)) as [->|Hne]; dsimp.
+      - rewrite decide_False; [done|]. tauto.
+      - by rewrite ?decide_True. }
+    assert (HU : forall c', c' <> 0 -> get_link s' c' 0 =
+              if decide (c' = c) then q else get_link s c' 0).
+    { intros c' Hc'. rewrite HL. destruct (decide (c' = c)) as [->|Hne]; dsimp.
+      - by rewrite ?decide_True.
+      - rewrite decide_False by (intros [= ?]; done). rewrite decide_False; [done|]. tauto. }
+    assert (Hcm : forall c' w, c' ∈ conn s -> cm s' c' w =
+              if decide (c' = c) then cm s c' w else after_msg w (cm s c' w) (EDelete u)).
+    { intros c' w Hc'. pose proof (conn_ne0 _ _ Hinv Hc') as Hne0.
+      destruct (decide (c' = c)) as [->|Hne]; dsimp.
+      - apply cm_same; [by apply HEc|]. rewrite HD by done. by rewrite decide_True.
+      - apply cm_snoc; [by apply HEc|]. rewrite HD by done. by rewrite decide_False. }
+    constructor.
+    + intros c' w Hc' Hs' Hw. rewrite Hc in Hc'. rewrite Hs in Hs'.
+      pose proof (conn_ne0 _ _ Hinv Hc') as Hne0. rewrite Hcm, HU by done. rewrite HH in Hw.
+      apply remove1_elem in Hw as [Hw Hwu]; [|done].
+      destruct (decide (c' = c)) as [->|Hne]; dsimp.
+      * destruct (c_A _ Hcinv _ _ Hc' Hs' Hw) as [?|Hde]; [by left|right].
+        rewrite Hhd in Hde. apply elem_of_cons in Hde as [[= ->]|?]; done.
+      * simpl. rewrite decide_False by done. by apply (c_A _ Hcinv).
+    + intros c' w Hc' Hde. rewrite Hc in Hc'.
+      pose proof (conn_ne0 _ _ Hinv Hc') as Hne0. rewrite HU in Hde by done. rewrite Hcm by done.
+      destruct (decide (c' = c)) as [->|Hne]; dsimp.
+      * destruct (c_B1 _ Hcinv _ _ Hc' (Hq _ Hde)) as [Hf Hpd]. split; [done|].
+        rewrite (pending_after_pop s s' c _ _ Hinv Hhd); [done|]. rewrite HU by done.
+        by rewrite decide_True.
+      * destruct (c_B1 _ Hcinv _ _ Hc' Hde) as [Hf Hpd]. split.
+        -- rewrite Hf. apply after_msg_false_delete.
+        -- unfold pending. rewrite HU by done. rewrite decide_False by done.
+           intros Hp'. specialize (Hpd Hp'). rewrite HH. intros ?%remove1_subseteq. done.
+    + intros c' w Hc' Ht. rewrite Hc in Hc'.
+      pose proof (conn_ne0 _ _ Hinv Hc') as Hne0. rewrite Hcm in Ht by done. rewrite HH, HU by done.
+      destruct (decide (c' = c)) as [->|Hne]; dsimp.
+      * assert (Hwu : w <> u) by (intros ->; congruence).
+        destruct (c_B2 _ Hcinv _ _ Hc' Ht) as [?|Hsw]; [left; by apply remove1_other|].
+        rewrite Hhd in Hsw. apply elem_of_cons in Hsw as [[=]|?]. by right.
+      * simpl in Ht. destruct (decide (u = w)) as [->|Hwu]; [done|].
+        destruct (c_B2 _ Hcinv _ _ Hc' Ht); [left|by right]. apply remove1_other; [done|]. by intros ->.
+  - (* host receives EReqInit from c *)
+    assert (Hcc : c ∈ conn s) by (apply link_nonempty_conn; [done|done|by rewrite Hhd]).
+    assert (Hq : forall m, m ∈ q -> m ∈ get_link s c 0) by (rewrite Hhd; set_solver).
+    assert (Hpc : pending s c = true) by (apply pending_true; by eexists).
+    assert (HD : forall c', get_link s' 0 c' =
+              if decide (c' = c) then get_link s 0 c ++ (ESpawn <$> get_ents s 0) ++ [EFinInit]
+              else get_link s 0 c').
+    { intros c'. rewrite HL. rewrite decide_False by (intros [= <- ?]; done).
+      destruct (decide (c' = c)) as [->|Hne]; dsimp.
+      - by rewrite ?decide_True.
+      - rewrite decide_False; [done|]. intros [= ?]. done. }
+    assert (HU : forall c', c' <> 0 -> get_link s' c' 0 =
+              if decide (c' = c) then q else get_link s c' 0).
+    { intros c' Hc'. rewrite HL. destruct (decide (c' = c)) as [->|Hne]; dsimp.
+      - by rewrite ?decide_True.
+      - rewrite decide_False by (intros [= ?]; done). rewrite decide_False; [done|].
+        intros [= ? ?]. done. }
+    assert (Hcm : forall c' w, cm s' c' w =
+              if decide (c' = c) then cm s c w || bool_decide (w ∈ get_ents s 0) else cm s c' w).
+    { intros c' w. destruct (decide (c' = c)) as [->|Hne]; dsimp.
+      - rewrite <- after_msgs_snapshot. apply cm_app; [apply HE|]. rewrite HD. by rewrite decide_True.
+      - apply cm_same; [apply HE|]. rewrite HD. by rewrite decide_False. }
+    constructor.
+    + intros c' w Hc' Hs' Hw. rewrite Hc in Hc'. rewrite HE in Hw.
+      pose proof (conn_ne0 _ _ Hinv Hc') as Hne0. rewrite Hcm, HU by done.
+      destruct (decide (c' = c)) as [->|Hne]; dsimp.
+      * left. rewrite (bool_decide_eq_true_2 _ Hw). apply orb_true_r.
+      * rewrite Hs in Hs'. apply elem_of_cons in Hs' as [->|Hs']; [done|]. by apply (c_A _ Hcinv).
+    + intros c' w Hc' Hde. rewrite Hc in Hc'.
+      pose proof (conn_ne0 _ _ Hinv Hc') as Hne0. rewrite HU in Hde by done. rewrite Hcm, HE.
+      destruct (decide (c' = c)) as [->|Hne]; dsimp.
+      * destruct (c_B1 _ Hcinv _ _ Hc' (Hq _ Hde)) as [Hf Hpd]. specialize (Hpd Hpc). split.
+        -- rewrite Hf. simpl. by apply bool_decide_eq_false_2.
+        -- rewrite (pending_after_pop s s' c _ _ Hinv Hhd); [done|]. rewrite HU by done.
+           by rewrite decide_True.
+      * destruct (c_B1 _ Hcinv _ _ Hc' Hde) as [Hf Hpd]. split; [done|].
+        unfold pending. rewrite HU by done. by rewrite decide_False.
+    + intros c' w Hc' Ht. rewrite Hc in Hc'.
+      pose proof (conn_ne0 _ _ Hinv Hc') as Hne0. rewrite Hcm in Ht. rewrite HE, HU by done.
+      destruct (decide (c' = c)) as [->|Hne]; dsimp.
+      * apply orb_true_iff in Ht as [Ht|Ht]; [|left; by apply bool_decide_eq_true in Ht].
+        destruct (c_B2 _ Hcinv _ _ Hc' Ht) as [?|Hsw]; [by left|].
+        rewrite Hhd in Hsw. apply elem_of_cons in Hsw as [[=]|?]. by right.
+      * by apply (c_B2 _ Hcinv).
+  - (* host receives EFinInit from c *)
+    assert (Hq : forall m, m ∈ q -> m ∈ get_link s c 0) by (rewrite Hhd; set_solver).
+    assert (HD : forall c', get_link s' 0 c' = get_link s 0 c').
+    { intros c'. rewrite HL. rewrite decide_False; [done|]. intros [= <- ?]. done. }
+    assert (HU : forall c', get_link s' c' 0 = if decide (c' = c) then q else get_link s c' 0).
+    { intros c'. rewrite HL. destruct (decide (c' = c)) as [->|Hne]; dsimp.
+      - by rewrite ?decide_True.
+      - rewrite decide_False; [done|]. intros [= ?]. done. }
+    assert (Hcm : forall c' w, cm s' c' w = cm s c' w).
+    { intros c' w. apply cm_same; [apply HE|apply HD]. }
+    constructor.
+    + intros c' w Hc' Hs' Hw. rewrite Hc in Hc'. rewrite Hs in Hs'. rewrite HE in Hw.
+      rewrite Hcm, HU. destruct (c_A _ Hcinv _ _ Hc' Hs' Hw) as [?|Hde]; [by left|right].
+      destruct (decide (c' = c)) as [->|Hne]; [|done].
+      rewrite Hhd in Hde. apply elem_of_cons in Hde as [[=]|?]. done.
+    + intros c' w Hc' Hde. rewrite Hc in Hc'. rewrite HU in Hde. rewrite Hcm, HE.
+      destruct (decide (c' = c)) as [->|Hne]; dsimp.
+      * destruct (c_B1 _ Hcinv _ _ Hc' (Hq _ Hde)) as [Hf Hpd]. split; [done|].
+        rewrite (pending_after_pop s s' c _ _ Hinv Hhd); [done|]. rewrite HU.
+        by rewrite decide_True.
+      * destruct (c_B1 _ Hcinv _ _ Hc' Hde) as [Hf Hpd]. split; [done|].
+        unfold pending. rewrite HU. by rewrite decide_False.
+    + intros c' w Hc' Ht. rewrite Hc in Hc'. rewrite Hcm in Ht. rewrite HE, HU.
+      destruct (c_B2 _ Hcinv _ _ Hc' Ht) as [?|Hsw]; [by left|right].
+      destruct (decide (c' = c)) as [->|Hne]; [|done].
+      rewrite Hhd in Hsw. apply elem_of_cons in Hsw as [[=]|?]. done.
+Qed.
+
+Lemma cinv_step_deliver_client s s' c :
+  sinv s -> cinv s -> step s (EvDeliver 0 c) = Some s' -> cinv s'.
+Proof.
+  intros Hinv Hcinv Hstep. pose proof (s_host _ Hinv) as H0.
+  pose proof (s_nd_ents _ Hinv) as Hnd.
+  assert (A : astep s s' (EvDeliver 0 c)) by (apply step_astep; [apply Hinv|done]).
+  inversion A as [| |c1 u q Hc0 Hhd HE HL (Hc & Hs & Hu)
+                    |c1 u q Hc0 Hhd HE HL (Hc & Hs & Hu)
+                    |c1 q Hc0 Hhd HE HL Hc Hs Hu
+                    |c1 q Hc0 Hhd HE HL (Hc & Hs & Hu)
+                    |c1 m q Hc0 Hhd HE HL (Hc & Hs & Hu)| |]; subst; clear A; try done.
+  - (* client c handles m *)
+    assert (HH : get_ents s' 0 = get_ents s 0).
+    { rewrite HE. by rewrite decide_False. }
+    assert (HU : forall c', c' <> 0 -> get_link s' c' 0 = get_link s c' 0).
+    { intros c' Hc'. rewrite HL. rewrite decide_False; [done|]. intros [= ? ?]. done. }
+    assert (Hcm : forall c' w, cm s' c' w = cm s c' w).
+    { intros c' w. destruct (decide (c' = c)) as [->|Hne]; dsimp.
+      - eapply cm_pop; [apply Hnd|apply Hhd| |].
+        + rewrite HL. by rewrite ?decide_True.
+        + rewrite HE. by rewrite ?decide_True.
+      - apply cm_same.
+        + rewrite HE. by rewrite decide_False.
+        + rewrite HL. rewrite decide_False; [done|]. intros [= ?]. done. }
+    constructor.
+    + intros c' w Hc' Hs' Hw. rewrite Hc in Hc'. rewrite Hs in Hs'. rewrite HH in Hw.
+      pose proof (conn_ne0 _ _ Hinv Hc') as Hne0. rewrite Hcm, HU by done. by apply (c_A _ Hcinv).
+    + intros c' w Hc' Hde. rewrite Hc in Hc'.
+      pose proof (conn_ne0 _ _ Hinv Hc') as Hne0. rewrite HU in Hde by done. rewrite Hcm, HH.
+      unfold pending. rewrite HU by done. by apply (c_B1 _ Hcinv).
+    + intros c' w Hc' Ht. rewrite Hc in Hc'.
+      pose proof (conn_ne0 _ _ Hinv Hc') as Hne0. rewrite Hcm in Ht. rewrite HH, HU by done.
+      by apply (c_B2 _ Hcinv).
+Qed.
+
+Lemma cinv_step_connect s s' c :
+  sinv s -> cinv s -> bad_S11 s (EvConnect c) = false ->
+  step s (EvConnect c) = Some s' -> cinv s'.
+Proof.
+  intros Hinv Hcinv Hbad Hstep. pose proof (s_host _ Hinv) as H0.
+  assert (A : astep s s' (EvConnect c)) by (apply step_astep; [apply Hinv|done]).
+  inversion A as [| | | | | | |c1 Hc0 Hnc HE HL Hc Hs Hu|]; subst c1; clear A.
+  assert (Hec : get_ents s c = []).
+  { simpl in Hbad. by destruct (get_ents s c). }
+  assert (Hdc : get_link s 0 c = []).
+  { destruct (get_link s 0 c) eqn:Heq; [done|]. exfalso. apply Hnc.
+    apply link_nonempty_conn_down; [done|done|]. by rewrite Heq. }
+  assert (Huc : get_link s c 0 = []).
+  { destruct (get_link s c 0) eqn:Heq; [done|]. exfalso. apply Hnc.
+    apply link_nonempty_conn; [done|done|]. by rewrite Heq. }
+  assert (HD : forall c', get_link s' 0 c' = get_link s 0 c').
+  { intros c'. rewrite HL. rewrite decide_False; [done|]. intros [= <- ?]. done. }
+  assert (HU : forall c', get_link s' c' 0 =
+            if decide (c' = c) then [EReqInit] else get_link s c' 0).
+  { intros c'. rewrite HL. destruct (decide (c' = c)) as [->|Hne].
+    - rewrite decide_True by done. by rewrite Huc.
+    - rewrite decide_False; [done|]. intros [= ?]. done. }
+  assert (Hcm : forall c' w, cm s' c' w = cm s c' w).
+  { intros c' w. apply cm_same; [apply HE|apply HD]. }
+  assert (Hcmc : forall w, cm s c w = false).
+  { intros w. unfold cm. rewrite Hec, Hdc. reflexivity. }
+  constructor.
+  - intros c' w Hc' Hs' Hw. rewrite Hs in Hs'. rewrite HE in Hw.
+    pose proof (s_sub _ Hinv _ Hs') as Hc''.
+    assert (Hne : c' <> c) by (intros ->; done).
+    rewrite Hcm, HU. rewrite ?decide_False by done. by apply (c_A _ Hcinv).
+  - intros c' w Hc' Hde. rewrite Hc in Hc'. rewrite HU in Hde. rewrite Hcm, HE.
+    destruct (decide (c' = c)) as [->|Hne].
+    + rewrite ?decide_True in Hde by done. apply elem_of_list_singleton in Hde. done.
+    + rewrite ?decide_False in Hde by done. apply elem_of_cons in Hc' as [->|Hc']; [done|].
+      unfold pending. rewrite HU. rewrite ?decide_False by done. by apply (c_B1 _ Hcinv).
+  - intros c' w Hc' Ht. rewrite Hc in Hc'. rewrite Hcm in Ht. rewrite HE, HU.
+    destruct (decide (c' = c)) as [->|Hne].
+    + by rewrite Hcmc in Ht.
+    + rewrite ?decide_False by done. apply elem_of_cons in Hc' as [->|Hc']; [done|].
+      by apply (c_B2 _ Hcinv).
+Qed.
+
+Lemma cinv_step_leave s s' c :
+  sinv s -> cinv s -> step s (EvLeave c) = Some s' -> cinv s'.
+Proof.
+  intros Hinv Hcinv Hstep. pose proof (s_host _ Hinv) as H0.
+  assert (A : astep s s' (EvLeave c)) by (apply step_astep; [apply Hinv|done]).
+  inversion A as [| | | | | | | |c1 Hcc HE HL Hc Hs Hu]; subst c1; clear A.
+  pose proof (conn_ne0 _ _ Hinv Hcc) as Hc0.
+  assert (HD : forall c', c' <> c -> get_link s' 0 c' = get_link s 0 c').
+  { intros c' Hne. rewrite HL. rewrite decide_False; [done|]. intros [[= ?]|[= ? ?]]; done. }
+  assert (HU : forall c', c' <> c -> get_link s' c' 0 = get_link s c' 0).
+  { intros c' Hne. rewrite HL. rewrite decide_False; [done|]. intros [[= ? ?]|[= ?]]; done. }
+  assert (Hcm : forall c' w, c' <> c -> cm s' c' w = cm s c' w).
+  { intros c' w Hne. apply cm_same; [apply HE|by apply HD]. }
+  constructor.
+  - intros c' w Hc' Hs' Hw. rewrite Hc in Hc'. rewrite Hs in Hs'. rewrite HE in Hw.
+    apply elem_of_list_filter in Hc' as [Hne Hc']. apply elem_of_list_filter in Hs' as [_ Hs'].
+    rewrite Hcm, HU by done. by apply (c_A _ Hcinv).
+  - intros c' w Hc' Hde. rewrite Hc in Hc'.
+    apply elem_of_list_filter in Hc' as [Hne Hc']. rewrite HU in Hde by done.
+    rewrite Hcm, HE by done. unfold pending. rewrite HU by done. by apply (c_B1 _ Hcinv).
+  - intros c' w Hc' Ht. rewrite Hc in Hc'.
+    apply elem_of_list_filter in Hc' as [Hne Hc']. rewrite Hcm in Ht by done.
+    rewrite HE, HU by done. by apply (c_B2 _ Hcinv).
+Qed.
+
+Lemma cinv_step s e s' :
+  sinv s -> cinv s -> bad_S11 s e = false -> bad_S18 s e = false ->
+  step s e = Some s' -> cinv s'.
+Proof.
+  intros Hinv Hcinv H11 H18 Hstep. destruct e as [p u|p u|a b|c|c].
+  - by eapply cinv_step_spawn.
+  - by eapply cinv_step_despawn.
+  - destruct (decide (b = 0)) as [->|Hb].
+    + by eapply cinv_step_deliver_host.
+    + destruct (decide (a = 0)) as [->|Ha].
+      * by eapply cinv_step_deliver_client.
+      * simpl in Hstep. destruct (get_link s a b); [done|].
+        rewrite decide_False in Hstep by done. by rewrite decide_False in Hstep.
+  - by eapply cinv_step_connect.
+  - by eapply cinv_step_leave.
+Qed.
+
+Lemma scan_cons_false bad s e tr s1 :
+  scan bad s (e :: tr) = false -> step s e = Some s1 -> bad s e = false /\ scan bad s1 tr = false.
+Proof. simpl. intros Hsc Hst. rewrite Hst in Hsc. by apply orb_false_iff in Hsc. Qed.
+
+Lemma cinv_run s tr s' :
+  sinv s -> cinv s -> scan bad_S11 s tr = false -> scan bad_S18 s tr = false ->
+  run s tr = Some s' -> cinv s'.
+Proof.
+  revert s. induction tr as [|e tr IH]; intros s Hinv Hcinv H11 H18; simpl.
+  - by intros [= <-].
+  - destruct (step s e) as [s1|] eqn:Hstep; [|done]. intros Hrun.
+    destruct (scan_cons_false _ _ _ _ _ H11 Hstep) as [Hb11 Hs11].
+    destruct (scan_cons_false _ _ _ _ _ H18 Hstep) as [Hb18 Hs18].
+    apply (IH s1); try done.
+    + by eapply sinv_step.
+    + by eapply cinv_step.
+Qed.
+
+Lemma cm_quiescent s c u : quiescent s -> cm s c u = bool_decide (u ∈ get_ents s c).
+Proof. intros Hq. unfold cm. by rewrite Hq. Qed.
+
+Lemma cinv_quiescent_agree s : sinv s -> cinv s -> quiescent s -> agree s.
+Proof.
+  intros Hinv Hcinv Hq. split; [apply (s_nd_ents _ Hinv)|].
+  intros c Hc Hs. split; [apply (s_nd_ents _ Hinv)|]. intros u. split.
+  - intros Hin. assert (Ht : cm s c u = true).
+    { rewrite cm_quiescent by done. by apply bool_decide_eq_true_2. }
+    destruct (c_B2 _ Hcinv _ _ Hc Ht) as [?|Hsp]; [done|]. rewrite Hq in Hsp. by apply elem_of_nil in Hsp.
+  - intros Hin. destruct (c_A _ Hcinv _ _ Hc Hs Hin) as [Ht|Hde].
+    + rewrite cm_quiescent in Ht by done. by apply bool_decide_eq_true in Ht.
+    + rewrite Hq in Hde. by apply elem_of_nil in Hde.
+Qed.
+
+(* C01, agreement part: outside the two known classes, at quiescence every connected and synced
+   client holds exactly the host's set, and nobody holds a uuid twice. *)
+Theorem C01_agreement tr s :
+  run init tr = Some s -> known_S11 tr = false -> known_S18 tr = false -> quiescent s -> agree s.
+Proof.
+  intros Hrun H11 H18 Hq. apply cinv_quiescent_agree; [by eapply sinv_reachable| |done].
+  eapply cinv_run; [apply sinv_init|apply cinv_init|apply H11|apply H18|done].
+Qed.
+Print Assumptions C01_agreement.
+
+(* ================================================================================================
+   7. The host's set against the trace (spec_alive)
+   ================================================================================================ *)
+
+Definition sp_of (e : event) : list uuid := match e with EvSpawn _ u => [u] | _ => [] end.
+Definition ds_of (e : event) : list uuid := match e with EvDespawn _ u => [u] | _ => [] end.
+
+Record ginv (SP DS DR : list uuid) (s : astate) : Prop := {
+  g1 : forall u, u ∉ DR -> u ∈ get_ents s 0 ->
+       u ∈ SP /\ (u ∈ DS -> exists c, EDelete u ∈ get_link s c 0);
+  g2 : forall u, u ∉ DR -> u ∈ SP -> u ∉ get_ents s 0 ->
+       (exists o, ESpawn u ∈ get_link s o 0) \/ u ∈ DS;
+  g3 : forall o u, ESpawn u ∈ get_link s o 0 -> u ∈ SP;
+  g4 : forall o u, ESpawn u ∈ get_link s o 0 -> u ∈ DS -> EDelete u ∈ get_link s o 0;
+  g5 : forall c u, EDelete u ∈ get_link s c 0 -> u ∈ DS;
+  g6 : forall u, u ∈ DS -> u ∈ used s;
+}.
+
+Lemma dropped_at_spec s c u :
+  u ∈ dropped_at s (EvLeave c) <-> mentions u (get_link s c 0).
+Proof.
+  simpl. unfold mentions. induction (get_link s c 0) as [|m q IH]; simpl.
+  - set_solver.
+  - rewrite elem_of_app, IH. destruct m; simpl; set_solver.
+Qed.
+
+Lemma ginv_step SP DS DR s e s' :
+  sinv s -> ginv SP DS DR s -> step s e = Some s' ->
+  ginv (SP ++ sp_of e) (DS ++ ds_of e) (DR ++ dropped_at s e) s'.
+Proof.
+  intros Hinv [G1 G2 G3 G4 G5 G6] Hstep. pose proof (s_host _ Hinv) as H0.
+  pose proof (s_nd_ents _ Hinv) as Hnd.
+  step_cases Hinv Hstep; simpl; rewrite ?app_nil_r.
+  - (* spawn *)
+    assert (Hnm : forall a b, ~ mentions u (get_link s a b)).
+    { intros a b Hm. apply Hfresh. eapply s_used_l; eauto. }
+    assert (HUm : forall c m, m ∈ get_link s c 0 -> m ∈ get_link s' c 0).
+    { intros c m Hm. rewrite HL. repeat case_decide; simplify_eq; try done;
+        apply elem_of_app; by left. }
+    assert (HUi : forall c m, m ∈ get_link s' c 0 -> m ∈ get_link s c 0 \/ (m = ESpawn u /\ c = p /\ p <> 0)).
+    { intros c m. rewrite HL. repeat case_decide; simplify_eq; try (by left); try (exfalso; tauto).
+      intros [?| ->]%elem_of_snoc; [by left|by right]. }
+    constructor.
+    + intros w Hdr Hw. rewrite HE in Hw. case_decide as Hp0.
+      * subst p. apply elem_of_cons in Hw as [->|Hw].
+        -- split; [apply elem_of_app; right; apply elem_of_list_here|].
+           intros Hds. exfalso. apply Hfresh. by apply G6.
+        -- destruct (G1 w Hdr Hw) as [? Hd]. split; [apply elem_of_app; by left|].
+           intros Hds. destruct (Hd Hds) as [c Hc']. exists c. by apply HUm.
+      * destruct (G1 w Hdr Hw) as [? Hd]. split; [apply elem_of_app; by left|].
+        intros Hds. destruct (Hd Hds) as [c Hc']. exists c. by apply HUm.
+    + intros w Hdr Hw Hnw. apply elem_of_snoc in Hw as [Hw| ->].
+      * assert (Hnw' : w ∉ get_ents s 0).
+        { intros Hin. apply Hnw. rewrite HE. case_decide as Hd; [subst p; apply elem_of_list_further|]; done. }
+        destruct (G2 w Hdr Hw Hnw') as [[o Ho]|?]; [left|by right]. exists o. by apply HUm.
+      * destruct (decide (p = 0)) as [->|Hp].
+        -- exfalso. apply Hnw. rewrite HE. rewrite decide_True by done. apply elem_of_list_here.
+        -- left. exists p. rewrite HL. rewrite decide_False by done. rewrite decide_True by done.
+           apply elem_of_app. right. apply elem_of_list_here.
+    + intros o w [Hold|([= ->] & _)]%HUi; apply elem_of_app; [left; by eapply G3|right; apply elem_of_list_here].
+    + intros o w [Hold|([= ->] & _)]%HUi Hds.
+      * apply HUm. by eapply G4.
+      * exfalso. apply Hfresh. by apply G6.
+    + intros c w [Hold|([=] & _)]%HUi. by eapply G5.
+    + intros w Hds. rewrite Hu. apply elem_of_list_further. by apply G6.
+  - (* despawn *)
+    assert (HUm : forall c m, m ∈ get_link s c 0 -> m ∈ get_link s' c 0).
+    { intros c m Hm. rewrite HL. repeat case_decide; simplify_eq; try done;
+        apply elem_of_app; by left. }
+    assert (HUi : forall c m, m ∈ get_link s' c 0 -> m ∈ get_link s c 0 \/ (m = EDelete u /\ c = p /\ p <> 0)).
+    { intros c m. rewrite HL. repeat case_decide; simplify_eq; try (by left); try (exfalso; tauto).
+      intros [?| ->]%elem_of_snoc; [by left|by right]. }
+    constructor.
+    + intros w Hdr Hw. rewrite HE in Hw. case_decide as Hp0.
+      * subst p. apply remove1_elem in Hw as [Hw Hwu]; [|done].
+        destruct (G1 w Hdr Hw) as [? Hd]. split; [done|].
+        intros [Hds|Heq]%elem_of_snoc; [|done].
+        destruct (Hd Hds) as [c Hc']. exists c. by apply HUm.
+      * destruct (G1 w Hdr Hw) as [? Hd]. split; [done|].
+        intros [Hds| ->]%elem_of_snoc.
+        -- destruct (Hd Hds) as [c Hc']. exists c. by apply HUm.
+        -- exists p. rewrite HL. rewrite decide_False by done. rewrite decide_True by done.
+           apply elem_of_app. right. apply elem_of_list_here.
+    + intros w Hdr Hw Hnw. destruct (decide (w = u)) as [->|Hwu].
+      * right. apply elem_of_app. right. apply elem_of_list_here.
+      * assert (Hnw' : w ∉ get_ents s 0).
+        { intros Hin0. apply Hnw. rewrite HE. case_decide as Hd; [|done]. subst p. by apply remove1_other. }
+        destruct (G2 w Hdr Hw Hnw') as [[o Ho]|?]; [left|right; apply elem_of_app; by left].
+        exists o. by apply HUm.
+    + intros o w [Hold|([=] & _)]%HUi. by eapply G3.
+    + intros o w [Hold|([=] & _)]%HUi [Hds| ->]%elem_of_snoc.
+      * apply HUm. by eapply G4.
+      * destruct (s_pa _ Hinv _ _ Hold) as (P1 & _ & P3 & _).
+        destruct (decide (p = o)) as [->|Hpo].
+        -- rewrite HL. destruct (decide (o = 0)) as [->|Ho0]; [done|].
+           rewrite decide_True by done. apply elem_of_app. right. apply elem_of_list_here.
+        -- destruct (P3 p Hpo) as [Hnot _]. done.
+    + intros c w [Hold|([= ->] & _)]%HUi; apply elem_of_app; [left; by eapply G5|right; apply elem_of_list_here].
+    + intros w [Hds| ->]%elem_of_snoc; rewrite Hu; [by apply G6|].
+      by eapply s_used_e.
+  - (* host receives ESpawn u from c *)
+    assert (Hsp : ESpawn u ∈ get_link s c 0) by (rewrite Hhd; apply elem_of_list_here).
+    assert (HUi : forall c' m, m ∈ get_link s' c' 0 -> m ∈ get_link s c' 0).
+    { intros c' m. rewrite HL. repeat case_decide; simplify_eq; try done; try (exfalso; tauto).
+      intros Hm. rewrite Hhd. by apply elem_of_list_further. }
+    assert (HUm : forall c' m, m ∈ get_link s c' 0 -> m <> ESpawn u -> m ∈ get_link s' c' 0).
+    { intros c' m Hm Hne. rewrite HL. repeat case_decide; simplify_eq; try done; try (exfalso; tauto).
+      rewrite Hhd in Hm. apply elem_of_cons in Hm as [->|Hm]; done. }
+    constructor.
+    + intros w Hdr Hw. rewrite HE in Hw. rewrite decide_True in Hw by done.
+      apply elem_of_cons in Hw as [->|Hw].
+      * split; [by eapply G3|]. intros Hds. exists c. apply HUm; [|done]. by eapply G4.
+      * destruct (G1 w Hdr Hw) as [? Hd]. split; [done|]. intros Hds.
+        destruct (Hd Hds) as [c' Hc']. exists c'. by apply HUm.
+    + intros w Hdr Hw Hnw. rewrite HE in Hnw. rewrite decide_True in Hnw by done.
+      apply not_elem_of_cons in Hnw as [Hwu Hnw].
+      destruct (G2 w Hdr Hw Hnw) as [[o Ho]|?]; [left|by right]. exists o. apply HUm; [done|].
+      intros [= ->]. done.
+    + intros o w Hm%HUi. by eapply G3.
+    + intros o w Hm Hds. pose proof (HUi _ _ Hm) as Hm'. apply HUm; [|done]. by eapply G4.
+    + intros c' w Hm%HUi. by eapply G5.
+    + intros w Hds. rewrite Hu. by apply G6.
+  - (* host receives EDelete u from c *)
+    assert (Hde : EDelete u ∈ get_link s c 0) by (rewrite Hhd; apply elem_of_list_here).
+    assert (HUi : forall c' m, m ∈ get_link s' c' 0 -> m ∈ get_link s c' 0).
+    { intros c' m. rewrite HL. repeat case_decide; simplify_eq; try done; try (exfalso; tauto).
+      intros Hm. rewrite Hhd. by apply elem_of_list_further. }
+    assert (HUm : forall c' m, m ∈ get_link s c' 0 -> m <> EDelete u -> m ∈ get_link s' c' 0).
+    { intros c' m Hm Hne. rewrite HL. repeat case_decide; simplify_eq; try done; try (exfalso; tauto).
+      rewrite Hhd in Hm. apply elem_of_cons in Hm as [->|Hm]; done. }
+    constructor.
+    + intros w Hdr Hw. rewrite HE in Hw. rewrite decide_True in Hw by done.
+      apply remove1_elem in Hw as [Hw Hwu]; [|done].
+      destruct (G1 w Hdr Hw) as [? Hd]. split; [done|]. intros Hds.
+      destruct (Hd Hds) as [c' Hc']. exists c'. apply HUm; [done|]. intros [= ->]. done.
+    + intros w Hdr Hw Hnw. rewrite HE in Hnw. rewrite decide_True in Hnw by done.
+      destruct (decide (w = u)) as [->|Hwu]; [right; by eapply G5|].
+      assert (Hnw' : w ∉ get_ents s 0).
+      { intros Hin. apply Hnw. by apply remove1_other. }
+      destruct (G2 w Hdr Hw Hnw') as [[o Ho]|?]; [left|by right]. exists o. by apply HUm.
+    + intros o w Hm%HUi. by eapply G3.
+    + intros o w Hm Hds. pose proof (HUi _ _ Hm) as Hm'.
+      assert (Hwu : w <> u).
+      { intros ->. destruct (decide (o = c)) as [->|Hoc].
+        - pose proof (s_okq _ Hinv c) as Hok. rewrite Hhd in Hok. destruct Hok as [Hok _].
+          apply (Hok u); [by apply mentions_delete|].
+          rewrite HL in Hm. by rewrite decide_True in Hm.
+        - destruct (s_pa _ Hinv _ _ Hm') as (_ & _ & P3 & _).
+          assert (Hco : c <> o) by done. destruct (P3 c Hco) as [_ P3b]. apply P3b. by right. }
+      apply HUm; [by eapply G4|]. intros [= ->]. done.
+    + intros c' w Hm%HUi. by eapply G5.
+    + intros w Hds. rewrite Hu. by apply G6.
+  - (* host receives EReqInit from c *)
+    assert (HUi : forall c' m, m ∈ get_link s' c' 0 -> m ∈ get_link s c' 0).
+    { intros c' m. rewrite HL. repeat case_decide; simplify_eq; try done.
+      intros Hm. rewrite Hhd. by apply elem_of_list_further. }
+    assert (HUm : forall c' m, m ∈ get_link s c' 0 -> m <> EReqInit -> m ∈ get_link s' c' 0).
+    { intros c' m Hm Hne. rewrite HL. repeat case_decide; simplify_eq; try done.
+      rewrite Hhd in Hm. apply elem_of_cons in Hm as [->|Hm]; done. }
+    constructor.
+    + intros w Hdr Hw. rewrite HE in Hw. destruct (G1 w Hdr Hw) as [? Hd]. split; [done|].
+      intros Hds. destruct (Hd Hds) as [c' Hc']. exists c'. by apply HUm.
+    + intros w Hdr Hw Hnw. rewrite HE in Hnw.
+      destruct (G2 w Hdr Hw Hnw) as [[o Ho]|?]; [left|by right]. exists o. by apply HUm.
+    + intros o w Hm%HUi. by eapply G3.
+    + intros o w Hm Hds. apply HUm; [|done]. eapply G4; [|done]. by apply HUi.
+    + intros c' w Hm%HUi. by eapply G5.
+    + intros w Hds. rewrite Hu. by apply G6.
+  - (* host receives EFinInit from c *)
+    assert (HUi : forall c' m, m ∈ get_link s' c' 0 -> m ∈ get_link s c' 0).
+    { intros c' m. rewrite HL. repeat case_decide; simplify_eq; try done.
+      intros Hm. rewrite Hhd. by apply elem_of_list_further. }
+    assert (HUm : forall c' m, m ∈ get_link s c' 0 -> m <> EFinInit -> m ∈ get_link s' c' 0).
+    { intros c' m Hm Hne. rewrite HL. repeat case_decide; simplify_eq; try done.
+      rewrite Hhd in Hm. apply elem_of_cons in Hm as [->|Hm]; done. }
+    constructor.
+    + intros w Hdr Hw. rewrite HE in Hw. destruct (G1 w Hdr Hw) as [? Hd]. split; [done|].
+      intros Hds. destruct (Hd Hds) as [c' Hc']. exists c'. by apply HUm.
+    + intros w Hdr Hw Hnw. rewrite HE in Hnw.
+      destruct (G2 w Hdr Hw Hnw) as [[o Ho]|?]; [left|by right]. exists o. by apply HUm.
+    + intros o w Hm%HUi. by eapply G3.
+    + intros o w Hm Hds. apply HUm; [|done]. eapply G4; [|done]. by apply HUi.
+    + intros c' w Hm%HUi. by eapply G5.
+    + intros w Hds. rewrite Hu. by apply G6.
+  - (* client *)
+    assert (HU : forall c', get_link s' c' 0 = get_link s c' 0).
+    { intros c'. rewrite HL. rewrite decide_False; [done|]. intros [= ? ?]. simplify_eq. }
+    assert (HH : get_ents s' 0 = get_ents s 0).
+    { rewrite HE. by rewrite decide_False. }
+    constructor; try setoid_rewrite HU; rewrite ?HH, ?Hu; assumption.
+  - (* connect *)
+    assert (HUi : forall c' m, m ∈ get_link s' c' 0 -> m <> EReqInit -> m ∈ get_link s c' 0).
+    { intros c' m. rewrite HL. repeat case_decide; simplify_eq; try done.
+      intros [?| ->]%elem_of_snoc; done. }
+    assert (HUm : forall c' m, m ∈ get_link s c' 0 -> m ∈ get_link s' c' 0).
+    { intros c' m Hm. rewrite HL. repeat case_decide; simplify_eq; try done.
+      apply elem_of_app. by left. }
+    constructor.
+    + intros w Hdr Hw. rewrite HE in Hw. destruct (G1 w Hdr Hw) as [? Hd]. split; [done|].
+      intros Hds. destruct (Hd Hds) as [c' Hc']. exists c'. by apply HUm.
+    + intros w Hdr Hw Hnw. rewrite HE in Hnw.
+      destruct (G2 w Hdr Hw Hnw) as [[o Ho]|?]; [left|by right]. exists o. by apply HUm.
+    + intros o w Hm%HUi; [|done]. by eapply G3.
+    + intros o w Hm Hds. apply HUm. eapply G4; [|done]. by apply HUi.
+    + intros c' w Hm%HUi; [|done]. by eapply G5.
+    + intros w Hds. rewrite Hu. by apply G6.
+  - (* leave *)
+    pose proof (conn_ne0 _ _ Hinv Hcc) as Hc0.
+    assert (HUi : forall c' m, m ∈ get_link s' c' 0 -> m ∈ get_link s c' 0 /\ c' <> c).
+    { intros c' m. rewrite HL. case_decide as Hd; [by intros ?%elem_of_nil|].
+      intros Hm. split; [done|]. intros ->. apply Hd. by right. }
+    assert (HUm : forall c' m, m ∈ get_link s c' 0 -> c' <> c -> m ∈ get_link s' c' 0).
+    { intros c' m Hm Hne. rewrite HL. rewrite decide_False; [done|].
+      intros [[= ? ?]|[= ?]]; simplify_eq. }
+    assert (Hdrop : forall w, w ∉ DR ++ mjoin (msg_uuid <$> get_link s c 0) ->
+              w ∉ DR /\ ~ mentions w (get_link s c 0)).
+    { intros w Hn. split.
+      - intros Hin. apply Hn. apply elem_of_app. by left.
+      - intros Hm. apply Hn. apply elem_of_app. right. by apply (dropped_at_spec s c w). }
+    constructor.
+    + intros w [Hdr Hnm]%Hdrop Hw. rewrite HE in Hw. destruct (G1 w Hdr Hw) as [? Hd]. split; [done|].
+      intros Hds. destruct (Hd Hds) as [c' Hc']. exists c'. apply HUm; [done|].
+      intros ->. apply Hnm. by right.
+    + intros w [Hdr Hnm]%Hdrop Hw Hnw. rewrite HE in Hnw.
+      destruct (G2 w Hdr Hw Hnw) as [[o Ho]|?]; [left|by right]. exists o. apply HUm; [done|].
+      intros ->. apply Hnm. by left.
+    + intros o w [Hm _]%HUi. by eapply G3.
+    + intros o w Hm Hds. destruct (HUi _ _ Hm) as [Hm' Hne]. apply HUm; [|done]. by eapply G4.
+    + intros c' w [Hm _]%HUi. by eapply G5.
+    + intros w Hds. rewrite Hu. by apply G6.
+Qed.
+
+Lemma collect_snoc {A} (f : astate -> event -> list A) s tr e :
+  collect f s (tr ++ [e]) =
+  collect f s tr ++ match run s tr with Some s1 => f s1 e | None => [] end.
+Proof.
+  revert s. induction tr as [|e' tr IH]; intros s; simpl.
+  - destruct (step s e); by rewrite !app_nil_r.
+  - destruct (step s e') as [s1|]; [|by rewrite !app_nil_r]. by rewrite IH, app_assoc.
+Qed.
+
+Lemma spawned_snoc tr e : spawned (tr ++ [e]) = spawned tr ++ sp_of e.
+Proof. unfold spawned. rewrite omap_app. f_equal. by destruct e. Qed.
+Lemma despawned_snoc tr e : despawned (tr ++ [e]) = despawned tr ++ ds_of e.
+Proof. unfold despawned. rewrite omap_app. f_equal. by destruct e. Qed.
+
+Lemma ginv_init : ginv [] [] [] init.
+Proof.
+  constructor.
+  - intros u _ Hin. rewrite get_ents_init in Hin. by apply elem_of_nil in Hin.
+  - intros u _ Hin. by apply elem_of_nil in Hin.
+  - intros o u Hin. rewrite get_link_init in Hin. by apply elem_of_nil in Hin.
+  - intros o u Hin. rewrite get_link_init in Hin. by apply elem_of_nil in Hin.
+  - intros o u Hin. rewrite get_link_init in Hin. by apply elem_of_nil in Hin.
+  - intros u Hin. by apply elem_of_nil in Hin.
+Qed.
+
+Lemma ginv_reachable tr s :
+  run init tr = Some s -> ginv (spawned tr) (despawned tr) (dropped_uuids tr) s.
+Proof.
+  revert s. induction tr as [|e tr IH] using rev_ind; intros s Hrun.
+  - injection Hrun as <-. apply ginv_init.
+  - rewrite run_snoc in Hrun. destruct (run init tr) as [s1|] eqn:Hrun1; [|done].
+    rewrite spawned_snoc, despawned_snoc. unfold dropped_uuids. rewrite collect_snoc, Hrun1.
+    apply ginv_step; [by eapply sinv_reachable|by apply IH|done].
+Qed.
+
+Lemma spec_alive_spec tr u : u ∈ spec_alive tr <-> u ∈ spawned tr /\ u ∉ despawned tr.
+Proof. unfold spec_alive. rewrite elem_of_list_filter. tauto. Qed.
+
+(* C01, specification part (holds on EVERY run, also inside the known classes): at quiescence the
+   host holds exactly the uuids spawned and not despawned in the trace, for every uuid whose
+   announcements were not lost with a departing client. *)
+Theorem C01_host_matches_spec tr s :
+  run init tr = Some s -> quiescent s ->
+  forall u, u ∉ dropped_uuids tr -> (u ∈ get_ents s 0 <-> u ∈ spec_alive tr).
+Proof.
+  intros Hrun Hq u Hdr. destruct (ginv_reachable _ _ Hrun) as [G1 G2 _ _ _ _].
+  rewrite spec_alive_spec. split.
+  - intros Hin. destruct (G1 u Hdr Hin) as [Hsp Hd]. split; [done|]. intros Hds.
+    destruct (Hd Hds) as [c Hc]. rewrite Hq in Hc. by apply elem_of_nil in Hc.
+  - intros [Hsp Hnd]. destruct (decide (u ∈ get_ents s 0)) as [|Hn]; [done|].
+    destruct (G2 u Hdr Hsp Hn) as [[o Ho]|?]; [|done]. rewrite Hq in Ho. by apply elem_of_nil in Ho.
+Qed.
+
+(* without departures nothing is ever lost *)
+Lemma collect_dropped_no_leave s tr :
+  (forall c, EvLeave c ∉ tr) -> collect dropped_at s tr = [].
+Proof.
+  revert s. induction tr as [|e tr IH]; intros s Hno; simpl; [done|].
+  assert (Hno' : forall c, EvLeave c ∉ tr).
+  { intros c Hin. apply (Hno c). by apply elem_of_list_further. }
+  assert (Hcont : match step s e with Some s' => collect dropped_at s' tr | None => [] end = []).
+  { destruct (step s e); [by apply IH|done]. }
+  destruct e as [p u|p u|a b|c|c]; try exact Hcont.
+  exfalso. apply (Hno c). apply elem_of_list_here.
+Qed.
+
+Definition C01_statement : Prop :=
+  forall tr s, run init tr = Some s ->
+    known_S11 tr = false -> known_S18 tr = false -> quiescent s ->
+    agree s /\
+    (forall u, u ∉ dropped_uuids tr -> (u ∈ get_ents s 0 <-> u ∈ spec_alive tr)) /\
+    (forall c u, c ∈ conn s -> c ∈ synced s -> u ∉ dropped_uuids tr ->
+                 (u ∈ get_ents s c <-> u ∈ spec_alive tr)).
+
+(* PROPERTY C01 (entity slice), for any number of clients, every interleaving, joins and departures
+   at any point: outside the two known defect classes, a quiescent state is an agreeing state, and
+   what everybody holds is what the trace says is alive. *)
+Theorem C01_entities_converge : C01_statement.
+Proof.
+  intros tr s Hrun H11 H18 Hq.
+  pose proof (C01_agreement _ _ Hrun H11 H18 Hq) as Hag.
+  pose proof (C01_host_matches_spec _ _ Hrun Hq) as Hspec.
+  split; [done|]. split; [done|]. intros c u Hc Hs Hdr.
+  destruct Hag as [_ Hag]. destruct (Hag c Hc Hs) as [_ Hsame]. rewrite Hsame. by apply Hspec.
+Qed.
+
+(* a client that is not in the table and never left holds nothing *)
+Lemma fresh_clients_step s e s' :
+  sinv s -> (forall c, c <> 0 -> c ∉ conn s -> get_ents s c = []) ->
+  (forall c, e <> EvLeave c) -> step s e = Some s' ->
+  forall c, c <> 0 -> c ∉ conn s' -> get_ents s' c = [].
+Proof.
+  intros Hinv Hf Hnl Hstep. step_cases Hinv Hstep; intros c' Hc0' Hnc'; rewrite ?Hc in Hnc'; rewrite HE.
+  - case_decide as Hd; [|by apply Hf]. subst c'. by destruct Hon.
+  - case_decide as Hd; [|by apply Hf]. subst c'. by destruct Hon.
+  - case_decide as Hd; [done|by apply Hf].
+  - case_decide as Hd; [done|by apply Hf].
+  - by apply Hf.
+  - by apply Hf.
+  - case_decide as Hd; [|by apply Hf]. subst c'. exfalso. apply Hnc'.
+    apply link_nonempty_conn_down; [done|done|by rewrite Hhd].
+  - apply Hf; [done|]. intros Hin. apply Hnc'. by apply elem_of_list_further.
+  - by destruct (Hnl c).
+Qed.
+
+Lemma no_leave_no_S11 s tr s' :
+  sinv s -> (forall c, c <> 0 -> c ∉ conn s -> get_ents s c = []) ->
+  (forall c, EvLeave c ∉ tr) -> run s tr = Some s' -> scan bad_S11 s tr = false.
+Proof.
+  revert s. induction tr as [|e tr IH]; intros s Hinv Hf Hno; simpl; [done|].
+  assert (Hno' : forall c, EvLeave c ∉ tr).
+  { intros c Hin. apply (Hno c). by apply elem_of_list_further. }
+  assert (Hne : forall c, e <> EvLeave c).
+  { intros c ->. apply (Hno c). apply elem_of_list_here. }
+  destruct (step s e) as [s1|] eqn:Hst; [|done]. intros Hrun.
+  apply orb_false_iff. split.
+  - destruct e as [p u|p u|a b|c|c]; try done. simpl.
+    simpl in Hst. destruct (bool_decide (c <> 0)) eqn:Hc0; [|done].
+    destruct (bool_decide (c ∉ conn s)) eqn:Hcc; [|done].
+    apply bool_decide_eq_true in Hc0, Hcc. by rewrite (Hf c Hc0 Hcc).
+  - apply IH; [by eapply sinv_step| |done|done]. by eapply fresh_clients_step.
+Qed.
+
+Corollary C01_entities_converge_no_leave tr s :
+  run init tr = Some s -> (forall c, EvLeave c ∉ tr) -> known_S18 tr = false -> quiescent s ->
+  agree s /\ forall u, u ∈ get_ents s 0 <-> u ∈ spec_alive tr.
+Proof.
+  intros Hrun Hno H18 Hq.
+  assert (Hdr : dropped_uuids tr = []) by (by apply collect_dropped_no_leave).
+  assert (H11 : known_S11 tr = false).
+  { eapply no_leave_no_S11; [apply sinv_init| |done|done]. intros c _ _. apply get_ents_init. }
+  destruct (C01_entities_converge _ _ Hrun H11 H18 Hq) as (Hag & Hspec & _).
+  split; [done|]. intros u. apply Hspec. rewrite Hdr. apply not_elem_of_nil.
+Qed.
+
+Print Assumptions C01_entities_converge.
+Print Assumptions C01_host_matches_spec.
+Print Assumptions C01_entities_converge_no_leave.
